@@ -43,6 +43,29 @@ import json
 
 sys.path.insert(0, os.path.dirname(os.path.abspath(__file__)))
 import rustlex as L
+import threading
+_TL = threading.local()     # per-thread (= per unit being assembled) switches of the opt-in rewrites: units are built concurrently
+
+
+class _TLSet:
+    def __init__(self, name):
+        self.name = name
+    def _s(self):
+        if not hasattr(_TL, self.name):
+            setattr(_TL, self.name, set())
+        return getattr(_TL, self.name)
+    def __contains__(self, x):
+        return x in self._s()
+    def __iter__(self):
+        return iter(self._s())
+    def __bool__(self):
+        return bool(self._s())
+    def clear(self):
+        self._s().clear()
+    def update(self, xs):
+        self._s().update(xs)
+
+
 
 REPO = os.environ.get("VERIF_REPO", "/repo")
 VERIF = os.path.dirname(os.path.dirname(os.path.abspath(__file__)))
@@ -576,7 +599,7 @@ def rw_R32(rf, a, b):
 
 
 # names that hold an opaque task (R2 replaced `Box<dyn FnMut() + Send>` by VerifTask): `//@tasks f task` inside //@fn
-R30_TASKS = set()
+R30_TASKS = _TLSet("tasks")
 
 
 def rw_R30(rf, a, b):
@@ -591,7 +614,7 @@ def rw_R30(rf, a, b):
 
 
 # constructor paths that the template declares to be RAII counter guards (`//@guards <Path::new>` inside //@fn)
-R29_GUARDS = set()
+R29_GUARDS = _TLSet("guards")
 
 
 def rw_R29(rf, a, b):
@@ -688,7 +711,7 @@ def rw_R29(rf, a, b):
 
 
 # names that the template declares to BE iterators (`//@iterator <name>` inside //@fn): `for x in <name>` is desugared too
-R23_ITERATORS = set()
+R23_ITERATORS = _TLSet("iterators")
 
 
 def rw_R23(rf, a, b):
@@ -1533,7 +1556,12 @@ class Unit:
             hits = []
             for ci, c in enumerate(cls):
                 otext = L.text(toks, c[0], c[3]).replace(" ", "").replace("\n", "").replace("\t", "")
-                if nown not in otext:
+                # a selector ending in `$` must be the END of the closure's text (so that `h.value.as_str()$` does not pick
+                # a closure that goes on: `h.value.as_str().to_ascii_lowercase()`)
+                if nown.endswith("$"):
+                    if not otext.endswith(nown[:-1]):
+                        continue
+                elif nown not in otext:
                     continue
                 if nctx is not None:
                     before = [j for j in sgb if j < c[0]][-16:]
